@@ -44,6 +44,7 @@ impl Prop for C12Prop {
             shapes: None,
             lifecycle_pct: 30,
             keyings: 2,
+            boundary_per_mille: 25,
         }
         .gen("C12", seed, idx);
         // the node set the history produces (the model is exact for these permissive specs)
@@ -65,6 +66,10 @@ impl Prop for C12Prop {
         let mut families: Vec<(String, Vec<Vec<String>>)> = vec![("partition".into(), base.clone())];
         families.push(("singletons".into(), names.iter().map(|x| vec![x.clone()]).collect()));
         families.push(("one_set".into(), if names.is_empty() { vec![] } else { vec![names.clone()] }));
+        // many small communities (pairs of consecutive nodes): a community far smaller than the graph
+        if n >= 4 {
+            families.push(("pairs".into(), names.chunks(2).map(|c| c.to_vec()).collect()));
+        }
         let mut with_empty = base.clone();
         with_empty.insert(rng.below(with_empty.len() + 1), vec![]);
         families.push(("partition_plus_empty_set".into(), with_empty));
